@@ -83,8 +83,10 @@ theorem stepW_matchRangeLoop {s} (h : AllW s) (text lo hi : Bytes) (neg : Bool) 
     unfold matchRangeLoop
     simp only
     split
-    · exact stepW_consumeNext h _ _
     · exact ih
+    · split
+      · exact stepW_consumeNext h _ _
+      · exact ih
 
 theorem stepW_matchRange {s} (h : AllW s) (text lo hi : Bytes) (neg : Bool) : StepW (s.matchRange text lo hi neg) :=
   stepW_matchRangeLoop h text lo hi neg _
